@@ -155,8 +155,16 @@ def report_violation(engine, prop, trace, violation, tier_cfg, findings, printed
         return emit(path, cand, "replay-note: observed in the batch and again when re-executed in a fork of the check process, but a "
                     "fresh interpreter gave reproduced=%s digest-match=%s; the code under test depends on process state outside the "
                     "simulator's control (e.g. memory layout)" % (verdict.get("reproduced"), verdict.get("digest") == cand["digest"]))
-    raise HarnessError("violation %s did not reproduce from its own trace in a fresh interpreter "
-                       "(determinism hole): %s" % (klass, violation.get("detail")))
+    # Nothing reproduced, not even in a fork of this process.  The determinism self-test shows that the harness replays
+    # the unchanged tree bit for bit, so the likelier source is the code under test (e.g. behaviour keyed on object
+    # addresses).  The violation was observed against real code: report it, with the original trace, flagged as such.
+    path = os.path.join(d, base + ".orig.json")
+    cand = dict(orig, violation=violation, digest=None, minimised_from={"ops": engine.size(orig), "to": engine.size(orig)})
+    with open(path, "w") as f:
+        json.dump(cand, f, indent=1, sort_keys=True)
+    return emit(path, cand, "replay-note: observed once in the batch (run %s) but not again when its trace was re-executed %d times; "
+                "the violating behaviour is not a function of the trace alone (code under test depends on memory layout or "
+                "similar). Re-run the batch with the same VERIF_SEED to observe it again." % (trace.get("run_index"), 6))
 
 
 def write_evidence(engine, prop, tier, seed, agg, wall, nviol, extra_notes=None):
